@@ -1,6 +1,7 @@
 import Pxv.Model.Router
 import Pxv.Lemmas.Matchit
 import Pxv.Lemmas.Router
+import Pxv.Lemmas.RouterBp
 /-!
 # C07 — requests are routed to exactly the handler the blueprint designates
 
@@ -17,6 +18,7 @@ on `Pxv/Model/Matchit.lean` (matchit 0.9.2) and `Pxv/Model/Domain.lean`.
   whose method guard accepts the method is the one that runs; `dispatch_unique_of_no_overlap` — if a
   single entry matches the path, it decides. `dispatch_unique_statement_false`: overlapping routes
   of different specificity are accepted (known finding).
+* `most_specific_unique` — two most specific matching entries have the same pattern.
 * `method_guard_unique` — two handlers registered for the same path never accept the same method.
 * `allow_exact` / `default_fallback_405` / `default_fallback_404` — path matches, no method does:
   the fallback sees exactly the methods registered for that path; the default answers 405 + Allow.
@@ -157,6 +159,35 @@ theorem dispatch_designated {comps : List Comp} {fbs : List Fb} {r : PathRouter}
       rw [h1] at h2; cases h2
   · exact absurd (by simpa [Leaf.Matches, Leaf.toks, hpx] using hmatch) (hnone lx hlx)
 
+/-- An accepted blueprint raised no diagnostic during the blueprint walk. -/
+theorem compile_no_err {ops : List Op} {t : Table} (h : compile ops = .ok t) : (processBlueprint ops).err = none := by
+  unfold compile at h
+  simp only at h
+  split at h
+  · cases h
+  · assumption
+
+/-- **route_designated** — from the blueprint to the handler that runs. If the blueprint registers
+    handler `hnd` with method guard `g` for path `full` (the route's path behind the prefixes of all
+    enclosing nested blueprints: `Reg`), the blueprint is accepted (no domain guards), `g` accepts the
+    request method, `full` matches the request path and is strictly more specific than every other
+    table entry that matches it, then the generated server runs `hnd`. -/
+theorem route_designated {ops : List Op} {r : PathRouter} (h : compile ops = .ok (.agnostic r))
+    (hN : NoNestedSuffix r.rset) {hnd : Nat} {g : MGuard} {full : List Char} {d : Option (List Char)}
+    (hreg : Reg ops none none hnd g full d) {m : String} (hadm : g.admits m = true) {path : List Char}
+    (hmatch : matchTok (toks full) path = true)
+    (hbest : ∀ l ∈ r.leaves, l.Matches path → l.path ≠ full → specGE l.toks (toks full) = false) :
+    r.dispatch m path = .handler hnd := by
+  obtain ⟨x, hx, h1, h2, h3, _⟩ := processBlueprint_registers (compile_no_err h) hreg
+  subst h1; subst h2; subst h3
+  exact dispatch_designated (compile_agnostic h) hN hx hadm hbest hmatch
+
+set_option maxRecDepth 100000 in
+/-- Non-vacuous: in `okOps`, `GET /api/x/y` reaches handler 2, registered as `/{*rest}` inside the
+    blueprint nested at `/api`. -/
+example : ((compile okOps).toOption.map (fun t => t.dispatch ⟨"GET", "/api/x/y".toList, none⟩)) = some (.handler 2) := by
+  decide +kernel
+
 /-- **dispatch_unique_of_no_overlap.** If the entries that match the path are all the same entry
     (no overlap at this path), that entry's method arms answer the request. -/
 theorem dispatch_unique_of_no_overlap (r : PathRouter) (hN : NoNestedSuffix r.rset) (m : String) (path : List Char)
@@ -165,6 +196,13 @@ theorem dispatch_unique_of_no_overlap (r : PathRouter) (hN : NoNestedSuffix r.rs
   rcases pathDispatch_spec r hN m path with ⟨l', ⟨hl', hlm', _⟩, he⟩ | ⟨hnone, _⟩
   · rw [he, hNo l hl l' hl' hm hlm']
   · exact absurd hm (hnone l hl)
+
+/-- **most_specific_unique.** Two most specific matching entries carry the same path pattern (up to
+    parameter names): "the" most specific route is well defined. -/
+theorem most_specific_unique {r : PathRouter} {l₁ l₂ : Leaf} {path : List Char}
+    (h1 : MostSpecific r l₁ path) (h2 : MostSpecific r l₂ path) : l₁.toks = l₂.toks :=
+  specGE_antisymm _ _ path h1.2.1 h2.2.1 (h1.2.2 l₂ h2.1 h2.2.1) (h2.2.2 l₁ h1.1 h1.2.1)
+    (toks_starLast _) (toks_starLast _)
 
 /-- The literal reading of "the unique handler whose guards match": in an accepted table at most one
     entry matches a path. -/
